@@ -6,6 +6,7 @@ CONSTANTS
   HandshakeBound = "all"
   UnixKeepalive = "honoured"
   HealthTrust = "rule"
+  UpgradeSNI = "always"
 INVARIANTS
   TypeOK
   VerifiedUnlessOptedOut
